@@ -486,7 +486,7 @@ var c09pNearMisses = []string{
 
 func c09Pipe(c *Ctx) {
 	r := c.Res
-	n := 1200
+	n := 800
 	if c.Thorough {
 		n *= 5
 	}
@@ -705,4 +705,14 @@ func c09Pipe(c *Ctx) {
 			}
 		}
 	}
+
+	// ---- accepted texts: the hypotheses of Props.C09 (AcceptedCallTexts) on what the REAL parser returned ----
+	var hEncs, hTexts []string
+	for _, t := range texts {
+		if strings.HasPrefix(t.real, "some ") {
+			hEncs = append(hEncs, strings.TrimPrefix(t.real, "some "))
+			hTexts = append(hTexts, t.text)
+		}
+	}
+	c09AcceptedHyps(c, "pipeline", "C09.pipehyps", hEncs, hTexts)
 }
